@@ -48,6 +48,15 @@ var go2coqTargets = []string{
 	"Conn.Invite", "Conn.Oper", "Conn.VHost", "Conn.Ping", "Conn.Pong", "Conn.Cap",
 	"Conn.Authenticate",
 	"ParseLine",
+	// stage 2: handlers (group 1)
+	"Line.argslen", "Conn.Me",
+	"Conn.h_PING", "Conn.h_REGISTER", "Conn.h_CTCP", "Conn.h_410",
+	"Conn.h_NICK", "Conn.h_433", "Conn.h_001",
+	// stage 2: capability negotiation (group 2)
+	"capabilitySet", "capSet.Add", "capSet.Has", "capSet.Intersect", "capSet.Slice", "capSet.Size",
+	"Conn.getRequestCapabilities", "Conn.negotiateCapabilities", "Conn.handleCapNak",
+	"Conn.h_903", "Conn.h_904", "Conn.h_908",
+	"Conn.handleCapAck", "Conn.h_CAP", "Conn.h_AUTHENTICATE",
 }
 
 // fuel override per loop ("func#k", k-th condition loop of the function, from 0); the
@@ -90,13 +99,21 @@ const (
 	tInt
 	tBool
 	tStrs
-	tMap // map[string]string -> option tagmap (None = nil map)
-	tPtr // result only: pointer to a struct -> option (tuple of its fields)
+	tMap    // map[string]string -> option tagmap (None = nil map)
+	tKMap   // map[string]bool -> CapsLib.kmap (canonical association list; never nil)
+	tNBytes // []byte -> option bytes (None = nil; nil-ness is observable: x != nil)
+	tErr    // error -> bool (true = non-nil)
+	tPtr    // result only: pointer to a struct -> option (tuple of its fields)
 	tTuple
 )
 
 func (t gtyp) coq() string {
+	if d := t.dyn(); d != nil {
+		return d.coq
+	}
 	switch t {
+	case tUnit:
+		return "unit"
 	case tStr:
 		return "bytes"
 	case tByte:
@@ -109,11 +126,20 @@ func (t gtyp) coq() string {
 		return "list bytes"
 	case tMap:
 		return "option tagmap"
+	case tKMap:
+		return "kmap"
+	case tNBytes:
+		return "option bytes"
+	case tErr:
+		return "bool"
 	}
 	return "BAD"
 }
 
 func (t gtyp) zero() string {
+	if d := t.dyn(); d != nil {
+		return d.zero
+	}
 	switch t {
 	case tStr, tStrs:
 		return "[]"
@@ -123,8 +149,10 @@ func (t gtyp) zero() string {
 		return "0"
 	case tBool:
 		return "false"
-	case tMap:
+	case tMap, tNBytes:
 		return "None"
+	case tErr:
+		return "false"
 	}
 	return "BAD"
 }
@@ -136,6 +164,9 @@ func failf(format string, a ...interface{}) { panic(unsupported{fmt.Sprintf(form
 func goType(t types.Type) gtyp {
 	if n, ok := t.(*types.Named); ok {
 		o := n.Obj()
+		if o.Pkg() == nil && o.Name() == "error" {
+			return tErr
+		}
 		if o.Pkg() != nil && o.Pkg().Path() == "time" && (o.Name() == "Duration" || o.Name() == "Time") {
 			return tInt
 		}
@@ -158,17 +189,20 @@ func goType(t types.Type) gtyp {
 		if kok && eok && k.Kind() == types.String && e.Kind() == types.String {
 			return tMap
 		}
+		if kok && eok && k.Kind() == types.String && e.Kind() == types.Bool {
+			return tKMap
+		}
 	case *types.Slice:
 		if b, ok := u.Elem().Underlying().(*types.Basic); ok {
 			if b.Kind() == types.String {
 				return tStrs
 			}
 			if b.Kind() == types.Uint8 {
-				return tStr
+				return tNBytes
 			}
 		}
 	}
-	return tBad
+	return goTypeDyn(t)
 }
 
 // ---------------------------------------------------------------------------------------
@@ -183,9 +217,11 @@ type nSeq struct { // pat := val ; body     (let when val is pure, bind otherwis
 	body node
 }
 type nBind struct { // name <- mterm ;; body   (mterm : res _, given as text)
-	name  string
-	mterm string
-	body  node
+	name   string
+	pat    []string // instead of name: '(a, b) <- mterm
+	mterm  string
+	body   node
+	effect bool // re-binds hidden state (receiver fields, out): not allowed under && / ||
 }
 type nIf struct {
 	c    string
@@ -241,7 +277,7 @@ func simplify(n node) node {
 		return x
 	case nBind:
 		x.body = simplify(x.body)
-		if lf, ok := x.body.(nLeaf); ok && lf.val == x.name {
+		if lf, ok := x.body.(nLeaf); ok && lf.val == x.name && len(x.pat) == 0 {
 			return nM{x.mterm}
 		}
 		return x
@@ -309,7 +345,17 @@ func (r *renderer) render(n node, pure bool, ind int) {
 	case nM:
 		r.b.WriteString(x.t)
 	case nBind:
-		r.b.WriteString(x.name + " <- " + x.mterm + " ;;")
+		if len(x.pat) > 1 {
+			*r.tmp++
+			p := fmt.Sprintf("p%d", *r.tmp)
+			r.b.WriteString(p + " <- " + x.mterm + " ;;")
+			r.nl(ind)
+			r.b.WriteString(r.letPat(x.pat, "") + p + " in")
+		} else if len(x.pat) == 1 {
+			r.b.WriteString(x.pat[0] + " <- " + x.mterm + " ;;")
+		} else {
+			r.b.WriteString(x.name + " <- " + x.mterm + " ;;")
+		}
 		r.nl(ind)
 		r.render(x.body, false, ind)
 	case nSeq:
@@ -478,7 +524,8 @@ type gsig struct {
 	fieldOut []fieldRef // receiver fields written, sorted by rel
 	emits    bool
 	results  []gtyp
-	resCoq   []string // Coq type of each result
+	resCoq   []string           // Coq type of each result
+	pfields  map[int][]fieldRef // pointer parameter i (params[i] == tRoot): the fields passed instead
 }
 
 func (s *gsig) resultType() string {
@@ -543,26 +590,30 @@ type ctx struct {
 }
 
 type ftrans struct {
-	pi        *pkgInfo
-	info      *types.Info
-	sigs      map[string]*gsig
-	fname     string
-	recv      types.Object
-	vars      map[types.Object]*gvar
-	hid       map[string]*gvar // "$out", ".cfg.SplitLen" (receiver-relative)
-	structs   map[types.Object]*structVar
-	extra     *[]string // definitions to emit before the function (package-level replacers)
-	emitted   map[string]bool
-	resStruct *types.Named // result type *T
-	fd        *ast.FuncDecl
-	used      map[string]bool
-	synth     map[*ast.Ident]ex
-	ntmp      int
-	nloop     int
-	ncloop    int
-	njoin     int
-	clocks    int
-	sig       *gsig
+	pi         *pkgInfo
+	info       *types.Info
+	sigs       map[string]*gsig
+	fname      string
+	recv       types.Object
+	vars       map[types.Object]*gvar
+	hid        map[string]*gvar // "$out", ".cfg.SplitLen" (receiver-relative)
+	structs    map[types.Object]*structVar
+	extra      *[]string // definitions to emit before the function (package-level replacers)
+	emitted    map[string]bool
+	resStruct  *types.Named // result type *T
+	section    *bool        // the Tracker section has been opened
+	inMapRange map[*gvar]bool
+	rangeKey   map[*gvar]types.Object
+	roots      []rootInfo
+	fd         *ast.FuncDecl
+	used       map[string]bool
+	synth      map[*ast.Ident]ex
+	ntmp       int
+	nloop      int
+	ncloop     int
+	njoin      int
+	clocks     int
+	sig        *gsig
 }
 
 var coqReserved = func() map[string]bool {
@@ -572,7 +623,8 @@ var coqReserved = func() map[string]bool {
 		res bytes Ok Panic bind len llen beq slice_to slice_from slice byte_at elem_at elems_from has_prefix has_suffix
 		index last_index contains split2 split_byte fields trim trim_space to_upper to_lower join set_elem
 		replace_pairs length app negb andb orb true false nat N Z bool list unit tt O S fst snd nil cons
-		fuel l p out tagmap tags_set go_map_set Some None option`) {
+		fuel l p out tagmap tags_set go_map_set Some None option ST trk s_ r_ go_is_some
+		kmap km_empty km_set km_get km_filter km_keys km_size isort c_ go_nbytes b64_encode b64_decode`) {
 		m[w] = true
 	}
 	return m
@@ -621,6 +673,7 @@ func (f *ftrans) declare(o types.Object) *gvar {
 	if ty == tBad {
 		failf("variable %s of unsupported type %s", o.Name(), o.Type())
 	}
+	f.needType(ty)
 	v := &gvar{name: f.fresh(o.Name()), ty: ty}
 	f.vars[o] = v
 	return v
@@ -629,7 +682,29 @@ func (f *ftrans) declare(o types.Object) *gvar {
 // ---------------------------------------------------------------------------------------
 // receiver fields
 
-// fieldPath: e is recv.a.b... denoting struct fields only -> ".a.b", true
+// a root: the receiver, or a pointer parameter of a package struct type; fields reached
+// through a root are hidden variables, keyed prefix+".a.b" (prefix "" for the receiver, "#i"
+// for parameter i)
+type rootInfo struct {
+	obj    types.Object
+	prefix string
+}
+
+func (f *ftrans) rootOf(id *ast.Ident) *rootInfo {
+	o := f.info.Uses[id]
+	if o == nil {
+		return nil
+	}
+	for i := range f.roots {
+		if f.roots[i].obj == o {
+			return &f.roots[i]
+		}
+	}
+	return nil
+}
+
+// fieldPath: e is root.a.b... denoting struct fields only, none of them reached through a
+// value-modelled pointer -> prefix+".a.b", true
 func (f *ftrans) fieldPath(e ast.Expr) (string, bool) {
 	se, ok := e.(*ast.SelectorExpr)
 	if !ok {
@@ -640,10 +715,13 @@ func (f *ftrans) fieldPath(e ast.Expr) (string, bool) {
 		return "", false
 	}
 	if id, ok := se.X.(*ast.Ident); ok {
-		if f.recv != nil && f.info.Uses[id] == f.recv {
-			return "." + se.Sel.Name, true
+		if r := f.rootOf(id); r != nil {
+			return r.prefix + "." + se.Sel.Name, true
 		}
 		return "", false
+	}
+	if goType(f.info.TypeOf(se.X)) != tBad {
+		return "", false // p.F with p a value (a *state.Nick): a partial read, not a path
 	}
 	p, ok := f.fieldPath(se.X)
 	if !ok {
@@ -652,24 +730,97 @@ func (f *ftrans) fieldPath(e ast.Expr) (string, bool) {
 	return p + "." + se.Sel.Name, true
 }
 
-func (f *ftrans) hidName(rel string) string {
-	return coqIdent(f.recv.Name() + strings.ReplaceAll(rel, ".", "_"))
+func (f *ftrans) hidName(key string) string {
+	for _, r := range f.roots {
+		if r.prefix != "" && strings.HasPrefix(key, r.prefix+".") {
+			return coqIdent(r.obj.Name() + strings.ReplaceAll(key[len(r.prefix):], ".", "_"))
+		}
+	}
+	return coqIdent(f.recv.Name() + strings.ReplaceAll(key, ".", "_"))
 }
 
-// scan the body for receiver fields read/written, sends on .out, calls of methods on the
-// receiver (their needs are inherited)
+// rootMethod: fn is root.M with M a translated method -> its signature and the root's prefix
+func (f *ftrans) rootMethod(fn *ast.SelectorExpr) (*gsig, string) {
+	sel := f.info.Selections[fn]
+	if sel == nil || sel.Kind() != types.MethodVal {
+		return nil, ""
+	}
+	id, ok := fn.X.(*ast.Ident)
+	if !ok {
+		return nil, ""
+	}
+	r := f.rootOf(id)
+	if r == nil {
+		return nil, ""
+	}
+	callee := f.sigs[recvTypeName(sel.Recv())+"."+fn.Sel.Name]
+	if callee == nil {
+		failf("call of method %s which is not translated", fn.Sel.Name)
+	}
+	return callee, r.prefix
+}
+
+// scan the body for fields read/written through the roots, sends on .out, calls of translated
+// methods on a root (their needs are inherited), Tracker calls (they update the tracker)
 func (f *ftrans) scan(fd *ast.FuncDecl) (in map[string]gtyp, out map[string]bool, emits bool) {
 	in = map[string]gtyp{}
 	out = map[string]bool{}
-	addIn := func(rel string, t types.Type) {
+	addIn := func(key string, t types.Type) {
 		ty := goType(t)
 		if ty == tBad {
-			failf("receiver field %s of unsupported type %s", rel, t)
+			failf("field %s of unsupported type %s", key, t)
 		}
-		in[rel] = ty
+		in[key] = ty
+	}
+	written := func(key string) {
+		if strings.HasPrefix(key, "#") {
+			failf("assignment through a pointer parameter")
+		}
+		out[key] = true
+	}
+	useCallee := func(callee *gsig, prefix string) {
+		for _, fr := range callee.fieldIn {
+			in[prefix+fr.rel] = fr.ty
+		}
+		for _, fr := range callee.fieldOut {
+			written(prefix + fr.rel)
+		}
+		if callee.emits {
+			if prefix != "" {
+				failf("method that sends lines called on a pointer parameter")
+			}
+			emits = true
+		}
+	}
+	target := func(l ast.Expr) {
+		if ix, ok := l.(*ast.IndexExpr); ok {
+			l = ix.X
+		}
+		if p, ok := f.fieldPath(l); ok {
+			addIn(p, f.info.TypeOf(l))
+			written(p)
+		} else if base, _, _, ok := f.valueField(l); ok {
+			if bp, ok := f.fieldPath(base); ok {
+				addIn(bp, f.info.TypeOf(base))
+				written(bp)
+			}
+		}
 	}
 	var visit func(n ast.Node) bool
 	visit = func(n ast.Node) bool {
+		if st, ok := n.(ast.Stmt); ok {
+			switch f.dropKind(st) {
+			case "log":
+				for _, a := range st.(*ast.ExprStmt).X.(*ast.CallExpr).Args {
+					if !f.isRuntimeExpr(a) {
+						ast.Inspect(a, visit)
+					}
+				}
+				return false
+			case "mutex", "dispatch", "runtime":
+				return false
+			}
+		}
 		switch x := n.(type) {
 		case *ast.SendStmt:
 			if p, ok := f.fieldPath(x.Chan); ok && p == ".out" {
@@ -680,37 +831,55 @@ func (f *ftrans) scan(fd *ast.FuncDecl) (in map[string]gtyp, out map[string]bool
 			failf("send on a channel other than the receiver's out queue")
 		case *ast.AssignStmt:
 			for _, l := range x.Lhs {
-				if p, ok := f.fieldPath(l); ok {
-					addIn(p, f.info.TypeOf(l))
-					out[p] = true
-				}
+				target(l)
 			}
 		case *ast.IncDecStmt:
-			if p, ok := f.fieldPath(x.X); ok {
-				addIn(p, f.info.TypeOf(x.X))
-				out[p] = true
-			}
+			target(x.X)
 		case *ast.CallExpr:
-			if se, ok := x.Fun.(*ast.SelectorExpr); ok {
-				if sel := f.info.Selections[se]; sel != nil && sel.Kind() == types.MethodVal {
-					if id, ok := se.X.(*ast.Ident); ok && f.recv != nil && f.info.Uses[id] == f.recv {
-						callee := f.sigs[recvTypeName(sel.Recv())+"."+se.Sel.Name]
-						if callee == nil {
-							failf("call of method %s which is not translated", se.Sel.Name)
+			switch fn := x.Fun.(type) {
+			case *ast.SelectorExpr:
+				if callee, prefix := f.rootMethod(fn); callee != nil {
+					useCallee(callee, prefix)
+					for _, a := range x.Args {
+						ast.Inspect(a, visit)
+					}
+					return false
+				}
+				if d := goType(f.info.TypeOf(fn.X)).dyn(); d != nil && d.kind == kIface {
+					if bp, ok := f.fieldPath(fn.X); ok {
+						addIn(bp, f.info.TypeOf(fn.X))
+						written(bp)
+					}
+				}
+				if d := goType(f.info.TypeOf(fn.X)).dyn(); d != nil && d.kind == kObj {
+					if bp, ok := f.fieldPath(fn.X); ok {
+						addIn(bp, f.info.TypeOf(fn.X))
+						if callee := f.sigs[d.named.Obj().Name()+"."+fn.Sel.Name]; callee != nil && len(callee.fieldOut) > 0 {
+							written(bp)
 						}
-						for _, fr := range callee.fieldIn {
-							in[fr.rel] = fr.ty
+					}
+				}
+			case *ast.Ident:
+				if _, isB := f.info.Uses[fn].(*types.Builtin); isB && fn.Name == "delete" && len(x.Args) == 2 {
+					target(x.Args[0])
+				}
+				if o, ok := f.info.Uses[fn].(*types.Func); ok && o.Pkg() == f.pi.pkg.Types {
+					if callee := f.sigs[o.Name()]; callee != nil {
+						for i, pt := range callee.params {
+							if pt == tRoot && i < len(x.Args) {
+								id, ok := x.Args[i].(*ast.Ident)
+								var r *rootInfo
+								if ok {
+									r = f.rootOf(id)
+								}
+								if r == nil {
+									failf("pointer argument of %s is not the receiver or a pointer parameter", callee.coq)
+								}
+								for _, fr := range callee.pfields[i] {
+									in[r.prefix+fr.rel] = fr.ty
+								}
+							}
 						}
-						for _, fr := range callee.fieldOut {
-							out[fr.rel] = true
-						}
-						if callee.emits {
-							emits = true
-						}
-						for _, a := range x.Args {
-							ast.Inspect(a, visit)
-						}
-						return false
 					}
 				}
 			}
@@ -718,15 +887,14 @@ func (f *ftrans) scan(fd *ast.FuncDecl) (in map[string]gtyp, out map[string]bool
 			if p, ok := f.fieldPath(x); ok {
 				if goType(f.info.TypeOf(x)) != tBad {
 					addIn(p, f.info.TypeOf(x))
-					return false
 				}
-				// a struct-valued prefix such as conn.cfg: only as part of a longer path
+				// a struct-valued prefix such as conn.cfg occurs only inside a longer path
 				return false
 			}
 		}
 		return true
 	}
-	// longer paths first: SelectorExpr visit sees the outermost selector first
+	// ast.Inspect sees the outermost selector first, i.e. the longest path
 	ast.Inspect(fd.Body, visit)
 	return
 }
@@ -1085,6 +1253,9 @@ func (f *ftrans) expr(e ast.Expr) ex {
 	if tv, ok := f.info.Types[e]; ok && tv.Value != nil {
 		return f.constant(tv)
 	}
+	if r, ok := f.objLit(e); ok {
+		return r
+	}
 	switch x := e.(type) {
 	case *ast.ParenExpr:
 		return f.expr(x.X)
@@ -1092,6 +1263,9 @@ func (f *ftrans) expr(e ast.Expr) ex {
 		o := f.info.Uses[x]
 		if v, ok := f.vars[o]; ok {
 			return ex{t: v.name, ty: v.ty}
+		}
+		if r, ok := f.pkgVar(x); ok {
+			return r
 		}
 		failf("identifier %s is not a local variable or constant", x.Name)
 	case *ast.SelectorExpr:
@@ -1102,6 +1276,11 @@ func (f *ftrans) expr(e ast.Expr) ex {
 		}
 		if v, ok := f.structField(x); ok {
 			return ex{t: v.name, ty: v.ty}
+		}
+		if base, d, i, ok := f.valueField(x); ok {
+			b := f.expr(base)
+			t := f.tmp()
+			return ex{pre: append(cat(b.pre), nBind{name: t, mterm: d.base + "_get_" + d.fields[i] + " " + arg(b)}), t: t, ty: d.ftys[i]}
 		}
 		failf("selector %s", exprText(f.pi, x))
 	case *ast.UnaryExpr:
@@ -1124,6 +1303,9 @@ func (f *ftrans) expr(e ast.Expr) ex {
 			return ex{pre: append(pre, nBind{name: t, mterm: "byte_at " + arg(b) + " " + arg(i)}), t: t, ty: tByte}
 		case b.ty == tStrs && i.ty == tInt:
 			return ex{pre: append(pre, nBind{name: t, mterm: "elem_at " + arg(b) + " " + arg(i)}), t: t, ty: tStr}
+		case b.ty == tKMap && i.ty == tStr:
+			f.ntmp-- // m[k] on a map[string]bool: total, a missing key gives false
+			return ex{pre: pre, t: "go_kmap_get " + arg(b) + " " + arg(i), p: 1, ty: tBool}
 		}
 		failf("index expression on %s", exprText(f.pi, x.X))
 	case *ast.SliceExpr:
@@ -1192,6 +1374,9 @@ func (f *ftrans) expr(e ast.Expr) ex {
 func wrapM(a ex) string {
 	var b strings.Builder
 	for _, p := range a.pre {
+		if p.effect || len(p.pat) > 0 {
+			failf("call with effects under && or ||")
+		}
 		b.WriteString(p.name + " <- " + p.mterm + " ;; ")
 	}
 	b.WriteString("Ok " + arg(a))
@@ -1199,6 +1384,31 @@ func wrapM(a ex) string {
 }
 
 func (f *ftrans) binary(x *ast.BinaryExpr) ex {
+	if x.Op == token.EQL || x.Op == token.NEQ {
+		var other ast.Expr
+		if f.isNil(x.Y) {
+			other = x.X
+		} else if f.isNil(x.X) {
+			other = x.Y
+		}
+		if other != nil {
+			a := f.expr(other)
+			if a.ty == tErr {
+				if x.Op == token.EQL {
+					return ex{pre: a.pre, t: "negb " + arg(a), p: 1, ty: tBool}
+				}
+				return ex{pre: a.pre, t: a.t, p: a.p, ty: tBool}
+			}
+			if d := a.ty.dyn(); (d != nil && (d.kind == kSPtr || d.kind == kIface || d.kind == kPure)) || a.ty == tMap || a.ty == tNBytes {
+				t := "go_is_some " + arg(a)
+				if x.Op == token.EQL {
+					t = "negb (" + t + ")"
+				}
+				return ex{pre: a.pre, t: t, p: 1, ty: tBool}
+			}
+			failf("comparison of a %s with nil", a.ty.coq())
+		}
+	}
 	a, b := f.expr(x.X), f.expr(x.Y)
 	if x.Op == token.LAND || x.Op == token.LOR {
 		if a.ty != tBool || b.ty != tBool {
@@ -1352,6 +1562,9 @@ func (f *ftrans) call(x *ast.CallExpr) ex {
 		}
 		failf("conversion %s", exprText(f.pi, x))
 	}
+	if r, ok := f.base64Call(x); ok {
+		return r
+	}
 	switch fn := x.Fun.(type) {
 	case *ast.Ident:
 		switch o := f.info.Uses[fn].(type) {
@@ -1362,7 +1575,7 @@ func (f *ftrans) call(x *ast.CallExpr) ex {
 			if callee == nil || o.Pkg() != f.pi.pkg.Types {
 				failf("call of %s which is not translated", o.Name())
 			}
-			return f.callSig(callee, x)
+			return f.callSig(callee, x, "")
 		}
 	case *ast.SelectorExpr:
 		// package-qualified function
@@ -1371,7 +1584,36 @@ func (f *ftrans) call(x *ast.CallExpr) ex {
 				return f.stdcall(pn.Imported().Path(), fn.Sel.Name, x)
 			}
 		}
+		// a function-typed field (cfg.NewNick): applied as a pure function
+		if sl := f.info.Selections[fn]; sl != nil && sl.Kind() == types.FieldVal && goType(f.info.TypeOf(fn)).dyn() != nil && goType(f.info.TypeOf(fn)).dyn().kind == kFunc {
+			fv := f.expr(fn)
+			pre, as := f.args(x.Args)
+			sg := f.info.TypeOf(fn).Underlying().(*types.Signature)
+			if len(as) != sg.Params().Len() {
+				failf("call of %s", exprText(f.pi, fn))
+			}
+			t := fv.t
+			for i, a := range as {
+				if a.ty != basicType(sg.Params().At(i).Type()) {
+					failf("call of %s: argument %d", exprText(f.pi, fn), i)
+				}
+				t += " " + arg(a)
+			}
+			return ex{pre: cat(fv.pre, pre), t: t, p: 1, ty: basicType(sg.Results().At(0).Type())}
+		}
 		if sel := f.info.Selections[fn]; sel != nil && sel.Kind() == types.MethodVal {
+			// a method of the state.Tracker interface
+			if r, ok := f.trackerCall(fn, x); ok {
+				return r
+			}
+			// a method of the sasl.Client oracle
+			if r, ok := f.saslCall(fn, x); ok {
+				return r
+			}
+			// a method of an object with one modelled field (capSet)
+			if r, ok := f.objCall(fn, x); ok {
+				return r
+			}
 			// (*strings.Replacer).Replace on a package-level replacer
 			if id, ok := fn.X.(*ast.Ident); ok && fn.Sel.Name == "Replace" && len(x.Args) == 1 {
 				if v, ok := f.info.Uses[id].(*types.Var); ok && v.Parent() == f.pi.pkg.Types.Scope() {
@@ -1383,9 +1625,9 @@ func (f *ftrans) call(x *ast.CallExpr) ex {
 					return ex{pre: a.pre, t: "replace_pairs " + name + " " + arg(a), p: 1, ty: tStr}
 				}
 			}
-			// method on the receiver
-			if callee := f.recvMethod(fn); callee != nil {
-				return f.callSig(callee, x)
+			// method on the receiver or on a pointer parameter
+			if callee, prefix := f.rootMethod(fn); callee != nil {
+				return f.callSig(callee, x, prefix)
 			}
 			// time.Time.Sub on clock readings
 			if n, ok := sel.Recv().(*types.Named); ok && n.Obj().Pkg() != nil && n.Obj().Pkg().Path() == "time" && n.Obj().Name() == "Time" && fn.Sel.Name == "Sub" && len(x.Args) == 1 {
@@ -1398,24 +1640,6 @@ func (f *ftrans) call(x *ast.CallExpr) ex {
 	return ex{}
 }
 
-// recvMethod: fn is recv.M with M a translated method -> its signature (fails closed when M
-// is a method on the receiver that is not translated), nil when fn is something else
-func (f *ftrans) recvMethod(fn *ast.SelectorExpr) *gsig {
-	sel := f.info.Selections[fn]
-	if sel == nil || sel.Kind() != types.MethodVal {
-		return nil
-	}
-	id, ok := fn.X.(*ast.Ident)
-	if !ok || f.recv == nil || f.info.Uses[id] != f.recv {
-		return nil
-	}
-	callee := f.sigs[recvTypeName(sel.Recv())+"."+fn.Sel.Name]
-	if callee == nil {
-		failf("call of method %s which is not translated", fn.Sel.Name)
-	}
-	return callee
-}
-
 func (f *ftrans) builtin(name string, x *ast.CallExpr) ex {
 	switch name {
 	case "len":
@@ -1425,6 +1649,10 @@ func (f *ftrans) builtin(name string, x *ast.CallExpr) ex {
 			return ex{pre: a.pre, t: "len " + arg(a), p: 1, ty: tInt}
 		case tStrs:
 			return ex{pre: a.pre, t: "llen " + arg(a), p: 1, ty: tInt}
+		case tKMap:
+			return ex{pre: a.pre, t: "km_size " + arg(a), p: 1, ty: tInt}
+		case tNBytes:
+			return ex{pre: a.pre, t: "len (go_nbytes " + arg(a) + ")", p: 1, ty: tInt}
 		}
 	case "append":
 		a := f.expr(x.Args[0])
@@ -1453,6 +1681,15 @@ func (f *ftrans) builtin(name string, x *ast.CallExpr) ex {
 	case "make":
 		if goType(f.info.TypeOf(x)) == tMap && len(x.Args) == 1 {
 			return ex{t: "Some []", p: 1, ty: tMap} // make(map[string]string)
+		}
+		if goType(f.info.TypeOf(x)) == tKMap && len(x.Args) == 1 {
+			return ex{t: "km_empty", ty: tKMap} // make(map[string]bool)
+		}
+		if goType(f.info.TypeOf(x)) == tStrs && len(x.Args) == 3 {
+			if tv := f.info.Types[x.Args[1]]; tv.Value != nil && constant.Sign(tv.Value) == 0 {
+				c := f.expr(x.Args[2]) // make([]string, 0, cap): cap is evaluated (a negative cap would panic: not modelled)
+				return ex{pre: c.pre, t: "[]", ty: tStrs}
+			}
 		}
 		if goType(f.info.TypeOf(x)) == tStrs && len(x.Args) >= 2 {
 			if tv := f.info.Types[x.Args[1]]; tv.Value != nil && constant.Sign(tv.Value) == 0 {
@@ -1529,38 +1766,68 @@ func (f *ftrans) stdcall(pkg, name string, x *ast.CallExpr) ex {
 	return ex{}
 }
 
-// callSig: call of a translated function or of a translated method on the receiver.
-// In expression position the callee must be effect-free (no field writes, no emits).
-func (f *ftrans) callSig(callee *gsig, x *ast.CallExpr) ex {
-	if len(callee.fieldOut) > 0 || callee.emits {
-		failf("call of %s with effects in expression position", callee.coq)
-	}
+// callSig: call of a translated function, or of a translated method on a root (prefix = the
+// root's key prefix).  Effects of the callee (receiver fields written, lines sent) re-bind the
+// caller's hidden variables, in evaluation order.
+func (f *ftrans) callSig(callee *gsig, x *ast.CallExpr, prefix string) ex {
 	for _, r := range callee.results {
 		if r == tPtr {
 			failf("call of %s which returns a struct pointer", callee.coq)
 		}
 	}
-	pre, argv := f.callArgs(callee, x)
-	t := f.tmp()
-	pre = append(pre, nBind{name: t, mterm: callee.coq + argv})
+	pre, argv := f.callArgs(callee, x, prefix)
+	var pat []string
+	for _, fr := range callee.fieldOut {
+		if prefix != "" {
+			failf("call of %s, which writes fields, on a pointer parameter", callee.coq)
+		}
+		pat = append(pat, f.hid[fr.rel].name)
+	}
+	outTmp := ""
+	if callee.emits {
+		if prefix != "" {
+			failf("call of %s, which sends lines, on a pointer parameter", callee.coq)
+		}
+		outTmp = f.tmp()
+		pat = append(pat, outTmp)
+	}
+	t := "tt"
+	if len(callee.results) > 0 {
+		t = f.tmp()
+		pat = append(pat, t)
+	}
+	b := nBind{mterm: callee.coq + argv, effect: len(callee.fieldOut) > 0 || callee.emits}
+	switch len(pat) {
+	case 0:
+		b.name = f.tmp()
+	case 1:
+		b.name = pat[0]
+	default:
+		b.pat = pat
+	}
+	pre = append(pre, b)
+	if callee.emits {
+		out := f.hid["$out"]
+		pre = append(pre, nBind{name: out.name, mterm: "Ok (" + out.name + " ++ " + outTmp + ")", effect: true})
+	}
 	switch len(callee.results) {
+	case 0:
+		return ex{pre: pre, t: "tt", ty: tUnit}
 	case 1:
 		return ex{pre: pre, t: t, ty: callee.results[0]}
-	case 0:
-		failf("call of %s (no result) in expression position", callee.coq)
 	}
 	return ex{pre: pre, t: t, ty: tTuple, tys: callee.results}
 }
 
-func (f *ftrans) callArgs(callee *gsig, x *ast.CallExpr) (pre []nBind, argv string) {
+func (f *ftrans) callArgs(callee *gsig, x *ast.CallExpr, prefix string) (pre []nBind, argv string) {
 	if callee.clocks > 0 {
 		failf("call of %s which reads the clock", callee.coq)
 	}
 	var ts []string
 	for _, fr := range callee.fieldIn {
-		v := f.hid[fr.rel]
+		v := f.hid[prefix+fr.rel]
 		if v == nil {
-			failf("internal: field %s not collected", fr.rel)
+			failf("internal: field %s not collected", prefix+fr.rel)
 		}
 		ts = append(ts, v.name)
 	}
@@ -1571,9 +1838,35 @@ func (f *ftrans) callArgs(callee *gsig, x *ast.CallExpr) (pre []nBind, argv stri
 	if len(x.Args) < np {
 		failf("call of %s with too few arguments", callee.coq)
 	}
-	p, as := f.args(x.Args)
-	pre = p
+	as := make([]ex, len(x.Args))
+	for i, e := range x.Args {
+		if i < len(callee.params) && callee.params[i] == tRoot {
+			continue
+		}
+		a := f.expr(e)
+		pre = append(pre, a.pre...)
+		a.pre = nil
+		as[i] = a
+	}
 	for i := 0; i < np; i++ {
+		if callee.params[i] == tRoot {
+			id, ok := x.Args[i].(*ast.Ident)
+			var r *rootInfo
+			if ok {
+				r = f.rootOf(id)
+			}
+			if r == nil {
+				failf("pointer argument of %s is not the receiver or a pointer parameter", callee.coq)
+			}
+			for _, fr := range callee.pfields[i] {
+				v := f.hid[r.prefix+fr.rel]
+				if v == nil {
+					failf("internal: field %s not collected", r.prefix+fr.rel)
+				}
+				ts = append(ts, v.name)
+			}
+			continue
+		}
 		if as[i].ty != callee.params[i] {
 			failf("argument %d of %s has type %s", i, callee.coq, as[i].ty.coq())
 		}
@@ -1609,7 +1902,7 @@ func (f *ftrans) callArgs(callee *gsig, x *ast.CallExpr) (pre []nBind, argv stri
 
 func withPre(pre []nBind, body node) node {
 	for i := len(pre) - 1; i >= 0; i-- {
-		body = nBind{name: pre[i].name, mterm: pre[i].mterm, body: body}
+		body = nBind{name: pre[i].name, pat: pre[i].pat, mterm: pre[i].mterm, effect: pre[i].effect, body: body}
 	}
 	return body
 }
@@ -1694,6 +1987,16 @@ func (f *ftrans) assign(lhsE, rhsE []ast.Expr, tok token.Token, c ctx, k func() 
 				}
 			}
 		}
+		// p.F = v through a value-modelled pointer
+		if base, d, i, ok := f.valueField(lhsE[0]); ok && tok == token.ASSIGN {
+			v := f.expr(rhsE[0])
+			bl := f.lhs(base, false)
+			if bl.blank || v.ty != d.ftys[i] {
+				failf("assignment to %s", exprText(f.pi, lhsE[0]))
+			}
+			f.ptrWriteOK(base, c.cont != nil)
+			return withPre(v.pre, nBind{name: bl.v.name, mterm: d.base + "_set_" + d.fields[i] + " " + bl.v.name + " " + arg(v), body: k()})
+		}
 		// x[i] = v on a map or a []string (index operands and v first, then the assignment)
 		if ix, ok := lhsE[0].(*ast.IndexExpr); ok && tok == token.ASSIGN {
 			i, v := f.expr(ix.Index), f.expr(rhsE[0])
@@ -1703,6 +2006,12 @@ func (f *ftrans) assign(lhsE, rhsE []ast.Expr, tok token.Token, c ctx, k func() 
 			}
 			var m string
 			switch {
+			case base.v.ty == tKMap && i.ty == tStr && v.ty == tBool:
+				if f.inMapRange[base.v] {
+					failf("insertion into a map while ranging over it")
+				}
+				return withPre(cat(i.pre, v.pre), nSeq{pat: []string{base.v.name}, ty: "kmap",
+					val: nLeaf{"km_set " + base.v.name + " " + arg(i) + " " + arg(v)}, body: k()})
 			case base.v.ty == tMap && i.ty == tStr && v.ty == tStr:
 				m = "go_map_set " + base.v.name + " " + arg(i) + " " + arg(v)
 			case base.v.ty == tStrs && i.ty == tInt && v.ty == tStr:
@@ -1754,7 +2063,16 @@ func (f *ftrans) assign(lhsE, rhsE []ast.Expr, tok token.Token, c ctx, k func() 
 	// all right-hand sides first (Go: operands evaluated, then assigned)
 	var pre []nBind
 	var vals []ex
-	for _, e := range rhsE {
+	for i, e := range rhsE {
+		if f.isNil(e) {
+			// x = nil: the zero value of x's type
+			lt := goType(f.info.TypeOf(lhsE[i]))
+			if lt.zero() != "None" {
+				failf("assignment of nil to a %s", lt.coq())
+			}
+			vals = append(vals, ex{t: "None", ty: lt})
+			continue
+		}
 		v := f.expr(e)
 		pre = append(pre, v.pre...)
 		vals = append(vals, v)
@@ -1764,7 +2082,7 @@ func (f *ftrans) assign(lhsE, rhsE []ast.Expr, tok token.Token, c ctx, k func() 
 		ls = append(ls, f.lhs(e, define))
 	}
 	// x := partial  ->  x <- partial ;;   instead of  t <- partial ;; let x := t
-	if len(ls) == 1 && !ls[0].blank && len(pre) > 0 && pre[len(pre)-1].name == vals[0].t && isTmpName(vals[0].t) && ls[0].v.ty == vals[0].ty {
+	if len(ls) == 1 && !ls[0].blank && len(pre) > 0 && len(pre[len(pre)-1].pat) == 0 && pre[len(pre)-1].name == vals[0].t && isTmpName(vals[0].t) && ls[0].v.ty == vals[0].ty {
 		pre[len(pre)-1].name = ls[0].v.name
 		return withPre(pre, k())
 	}
@@ -1865,6 +2183,8 @@ func (f *ftrans) assigned(nodes ...ast.Node) []*gvar {
 				}
 			} else if v, ok := f.structField(x); ok && !inside(v.owner) {
 				set[v] = v.owner.Pos() + token.Pos(v.idx)
+			} else if base, _, _, ok := f.valueField(x); ok {
+				mark(base) // p.F = v re-binds p
 			}
 		case *ast.IndexExpr:
 			mark(x.X) // x[i] = v assigns x
@@ -1892,7 +2212,7 @@ func (f *ftrans) assigned(nodes ...ast.Node) []*gvar {
 			case *ast.CallExpr:
 				if se, ok := s.Fun.(*ast.SelectorExpr); ok {
 					if sel := f.info.Selections[se]; sel != nil && sel.Kind() == types.MethodVal {
-						if id, ok := se.X.(*ast.Ident); ok && f.recv != nil && f.info.Uses[id] == f.recv {
+						if id, ok := se.X.(*ast.Ident); ok && f.rootOf(id) != nil && f.rootOf(id).prefix == "" {
 							if callee := f.sigs[recvTypeName(sel.Recv())+"."+se.Sel.Name]; callee != nil {
 								if callee.emits {
 									set[f.hid["$out"]] = token.Pos(1 << 31)
@@ -1902,7 +2222,23 @@ func (f *ftrans) assigned(nodes ...ast.Node) []*gvar {
 								}
 							}
 						}
+						if d := goType(f.info.TypeOf(se.X)).dyn(); d != nil && d.kind == kIface {
+							mark(se.X) // a Tracker call updates the tracker
+						}
+						if d := goType(f.info.TypeOf(se.X)).dyn(); d != nil && d.kind == kObj {
+							if callee := f.sigs[d.named.Obj().Name()+"."+se.Sel.Name]; callee != nil && len(callee.fieldOut) > 0 {
+								mark(se.X) // a method that writes the object's field
+							}
+						}
 					}
+				}
+				if id, ok := s.Fun.(*ast.Ident); ok && id.Name == "delete" && len(s.Args) == 2 {
+					if _, isB := f.info.Uses[id].(*types.Builtin); isB {
+						mark(s.Args[0])
+					}
+				}
+				if f.isPkgCall(s, "sort") && len(s.Args) == 1 {
+					mark(s.Args[0])
 				}
 			case *ast.FuncLit:
 				failf("function literal")
@@ -2167,6 +2503,16 @@ func (f *ftrans) rangeStmt(s *ast.RangeStmt, c ctx, k func() node) node {
 	if s.Tok != token.DEFINE {
 		failf("range without :=")
 	}
+	overMap := goType(f.info.TypeOf(s.X)) == tKMap
+	if overMap {
+		// for k := range m: the keys in the canonical (sorted) order of CapsLib.kmap, taken when
+		// the loop starts.  Faithful only when the loop's result does not depend on Go's random
+		// order (not established here) and the body changes m at most by delete(m, k).
+		if s.Value != nil {
+			failf("range over a map with a value variable")
+		}
+		s = &ast.RangeStmt{For: s.For, Key: ast.NewIdent("_"), Value: s.Key, Tok: s.Tok, X: s.X, Body: s.Body}
+	}
 	if id, ok := s.Key.(*ast.Ident); !ok || id.Name != "_" {
 		failf("range with an index variable")
 	}
@@ -2182,6 +2528,18 @@ func (f *ftrans) rangeStmt(s *ast.RangeStmt, c ctx, k func() node) node {
 		return true
 	})
 	le := f.expr(s.X)
+	if overMap {
+		mv := f.lhs(s.X, false)
+		if mv.v == nil {
+			failf("range over %s", exprText(f.pi, s.X))
+		}
+		f.inMapRange[mv.v] = true
+		defer delete(f.inMapRange, mv.v)
+		if kid, ok := s.Value.(*ast.Ident); ok {
+			f.rangeKey[mv.v] = f.info.Defs[kid]
+		}
+		le = ex{pre: le.pre, t: "km_keys " + arg(le), p: 1, ty: tStrs}
+	}
 	if le.ty != tStrs {
 		failf("range over %s", le.ty.coq())
 	}
@@ -2205,40 +2563,37 @@ func (f *ftrans) rangeStmt(s *ast.RangeStmt, c ctx, k func() node) node {
 
 // a call in statement position: effects of the callee are applied to the hidden state
 func (f *ftrans) callStmt(x *ast.CallExpr, k func() node) node {
-	se, ok := x.Fun.(*ast.SelectorExpr)
-	if !ok {
-		failf("call statement %s", exprText(f.pi, x.Fun))
+	if se, ok := x.Fun.(*ast.SelectorExpr); ok {
+		if callee, prefix := f.rootMethod(se); callee != nil && prefix == "" && len(callee.results) == 0 {
+			pre, argv := f.callArgs(callee, x, prefix)
+			var pat []string
+			for _, fr := range callee.fieldOut {
+				pat = append(pat, f.hid[fr.rel].name)
+			}
+			var body node
+			if callee.emits {
+				t := f.tmp()
+				pat = append(pat, t)
+				out := f.hid["$out"]
+				body = nSeq{pat: []string{out.name}, ty: "list bytes", val: nLeaf{out.name + " ++ " + t}, body: k()}
+			} else {
+				body = k()
+			}
+			return withPre(pre, nSeq{pat: pat, val: nM{callee.coq + argv}, body: body})
+		}
 	}
-	sel := f.info.Selections[se]
-	id, isId := se.X.(*ast.Ident)
-	if sel == nil || sel.Kind() != types.MethodVal || !isId || f.recv == nil || f.info.Uses[id] != f.recv {
-		failf("call statement %s", exprText(f.pi, x.Fun))
-	}
-	callee := f.sigs[recvTypeName(sel.Recv())+"."+se.Sel.Name]
-	if callee == nil {
-		failf("call of method %s which is not translated", se.Sel.Name)
-	}
-	if len(callee.results) > 0 {
-		failf("results of %s discarded", callee.coq)
-	}
-	pre, argv := f.callArgs(callee, x)
-	var pat []string
-	for _, fr := range callee.fieldOut {
-		pat = append(pat, f.hid[fr.rel].name)
-	}
-	var body node
-	if callee.emits {
-		t := f.tmp()
-		pat = append(pat, t)
-		out := f.hid["$out"]
-		body = nSeq{pat: []string{out.name}, ty: "list bytes", val: nLeaf{out.name + " ++ " + t}, body: k()}
-	} else {
-		body = k()
-	}
-	return withPre(pre, nSeq{pat: pat, val: nM{callee.coq + argv}, body: body})
+	// any other call: evaluated for its effects, the result is discarded
+	v := f.expr(x)
+	return withPre(v.pre, k())
 }
 
 func (f *ftrans) stmt(s ast.Stmt, c ctx, k func() node) node {
+	switch f.dropKind(s) {
+	case "log":
+		return f.logArgs(s.(*ast.ExprStmt).X.(*ast.CallExpr), k)
+	case "mutex", "dispatch", "runtime":
+		return k()
+	}
 	switch x := s.(type) {
 	case *ast.EmptyStmt:
 		return k()
@@ -2246,6 +2601,9 @@ func (f *ftrans) stmt(s ast.Stmt, c ctx, k func() node) node {
 		return f.stmts(x.List, c, k)
 	case *ast.ExprStmt:
 		if call, ok := x.X.(*ast.CallExpr); ok {
+			if n, ok := f.specialStmt(call, k); ok {
+				return n
+			}
 			return f.callStmt(call, k)
 		}
 	case *ast.SendStmt:
@@ -2380,35 +2738,87 @@ func (f *ftrans) function(name string, fd *ast.FuncDecl) (text string) {
 		failf("generic function")
 	}
 	var binders []string
-	// receiver
+	// roots: the receiver and the pointer parameters of a package struct type
 	if gs.Recv() != nil {
 		if fd.Recv.List[0].Names == nil {
 			failf("unnamed receiver")
 		}
 		f.recv = f.info.Defs[fd.Recv.List[0].Names[0]]
 		f.used[coqIdent(f.recv.Name())] = true
-		in, out, emits := f.scan(fd)
-		var rels []string
-		for r := range in {
-			rels = append(rels, r)
+		f.roots = append(f.roots, rootInfo{f.recv, ""})
+	}
+	isRootParam := func(p *types.Var) bool {
+		pt, ok := p.Type().(*types.Pointer)
+		if !ok || goType(p.Type()) != tBad {
+			return false
 		}
-		sort.Strings(rels)
-		for _, r := range rels {
-			nm := f.fresh(f.hidName(r))
-			f.hid[r] = &gvar{name: nm, ty: in[r]}
-			sig.fieldIn = append(sig.fieldIn, fieldRef{r, in[r]})
-			binders = append(binders, "("+nm+" : "+in[r].coq()+")")
-			if out[r] {
-				sig.fieldOut = append(sig.fieldOut, fieldRef{r, in[r]})
+		n, ok := pt.Elem().(*types.Named)
+		if !ok || n.Obj().Pkg() != f.pi.pkg.Types {
+			return false
+		}
+		_, ok = n.Underlying().(*types.Struct)
+		return ok
+	}
+	for i := 0; i < gs.Params().Len(); i++ {
+		if p := gs.Params().At(i); isRootParam(p) && p.Name() != "" && p.Name() != "_" {
+			f.used[coqIdent(p.Name())] = true
+			f.roots = append(f.roots, rootInfo{p, fmt.Sprintf("#%d", i)})
+		}
+	}
+	in, out := map[string]gtyp{}, map[string]bool{}
+	if len(f.roots) > 0 {
+		var emits bool
+		in, out, emits = f.scan(fd)
+		sig.emits = emits
+	}
+	keysOf := func(prefix string) []string {
+		var ks []string
+		for k := range in {
+			if (prefix == "" && !strings.HasPrefix(k, "#")) || (prefix != "" && strings.HasPrefix(k, prefix+".")) {
+				ks = append(ks, k)
 			}
 		}
-		sig.emits = emits
+		sort.Strings(ks)
+		return ks
+	}
+	hidden := func(k string) *gvar {
+		f.needType(in[k])
+		v := &gvar{name: f.fresh(f.hidName(k)), ty: in[k]}
+		f.hid[k] = v
+		binders = append(binders, "("+v.name+" : "+v.ty.coq()+")")
+		return v
+	}
+	if f.recv != nil {
+		for _, k := range keysOf("") {
+			hidden(k)
+			sig.fieldIn = append(sig.fieldIn, fieldRef{k, in[k]})
+			if out[k] {
+				sig.fieldOut = append(sig.fieldOut, fieldRef{k, in[k]})
+			}
+		}
 	}
 	// parameters
 	for i := 0; i < gs.Params().Len(); i++ {
 		p := gs.Params().At(i)
 		if p.Name() == "" || p.Name() == "_" {
+			if isRootParam(p) {
+				sig.params = append(sig.params, tRoot)
+				continue
+			}
 			failf("unnamed parameter")
+		}
+		if isRootParam(p) {
+			prefix := fmt.Sprintf("#%d", i)
+			if sig.pfields == nil {
+				sig.pfields = map[int][]fieldRef{}
+			}
+			sig.pfields[i] = []fieldRef{}
+			for _, k := range keysOf(prefix) {
+				hidden(k)
+				sig.pfields[i] = append(sig.pfields[i], fieldRef{k[len(prefix):], in[k]})
+			}
+			sig.params = append(sig.params, tRoot)
+			continue
 		}
 		v := f.declare(p)
 		sig.params = append(sig.params, v.ty)
@@ -2417,7 +2827,7 @@ func (f *ftrans) function(name string, fd *ast.FuncDecl) (text string) {
 	sig.variadic = gs.Variadic()
 	for i := 0; i < gs.Results().Len(); i++ {
 		rt := gs.Results().At(i).Type()
-		if pt, ok := rt.(*types.Pointer); ok && gs.Results().Len() == 1 {
+		if pt, ok := rt.(*types.Pointer); ok && gs.Results().Len() == 1 && goType(rt) == tBad {
 			if named, ok := pt.Elem().(*types.Named); ok {
 				if _, ok := structFields(named); ok && gs.Results().At(i).Name() == "" {
 					f.resStruct = named
@@ -2431,6 +2841,7 @@ func (f *ftrans) function(name string, fd *ast.FuncDecl) (text string) {
 		if ty == tBad {
 			failf("result of unsupported type %s", rt)
 		}
+		f.needType(ty)
 		sig.results = append(sig.results, ty)
 		sig.resCoq = append(sig.resCoq, ty.coq())
 	}
@@ -2488,7 +2899,7 @@ const go2coqPrelude = `(* GENERATED from the Go source by /verif/translator (go2
    One definition per translated Go function: its BODY, statement by statement, in the res
    monad of Lib/GoBytes.v.  Proofs/GenEq*.v prove each one equal to the hand-written model.
    A function outside the supported subset appears as  go_<pkg>_<func>_UNSUPPORTED. *)
-From Verif Require Import GoBytes LineLib.
+From Verif Require Import GoBytes LineLib CapsLib Base64.
 Open Scope Z_scope.
 
 (* uint8 arithmetic wraps modulo 256 (operands are bytes, < 256) *)
@@ -2501,6 +2912,16 @@ Definition go_string_of_byte (c : N) : bytes :=
 (* x / y and x % y on int with a divisor that is not a non-zero constant *)
 Definition go_int_quot (a b : Z) : res Z := if b =? 0 then Panic else Ok (Z.quot a b).
 Definition go_int_rem (a b : Z) : res Z := if b =? 0 then Panic else Ok (Z.rem a b).
+(* m[k] and delete(m, k) on a map[string]bool (CapsLib.kmap) *)
+Definition go_kmap_get (m : kmap) (k : bytes) : bool := match km_get m k with Some v => v | None => false end.
+Definition go_kmap_delete (m : kmap) (k : bytes) : kmap := km_filter (fun x => negb (beq x k)) m.
+(* a []byte is an option (None = nil); its content *)
+Definition go_nbytes (b : option bytes) : bytes := match b with Some x => x | None => [] end.
+(* base64.StdEncoding.DecodeString: (decoded, err) *)
+Definition go_b64_decode (s : bytes) : option bytes * bool :=
+  match b64_decode s with Some b => (Some b, false) | None => (None, true) end.
+(* x != nil on a pointer, an interface value or a map *)
+Definition go_is_some {A} (o : option A) : bool := match o with Some _ => true | None => false end.
 (* m[k] = v on a map[string]string (None = nil map: assignment panics) *)
 Definition go_map_set (m : option tagmap) (k v : bytes) : res (option tagmap) :=
   match m with Some mm => Ok (Some (tags_set mm k v)) | None => Panic end.
@@ -2513,6 +2934,9 @@ func go2coq(pkgs map[string]*pkgInfo) string {
 	pi := pkgs["client"]
 	sigs := map[string]*gsig{}
 	emitted := map[string]bool{}
+	section := false
+	resetDyn()
+	ifaceMethods = map[string]ifaceMethod{}
 	for _, name := range go2coqTargets {
 		fd := pi.funcs[name]
 		coqName := "go_client_" + coqIdent(name)
@@ -2520,6 +2944,7 @@ func go2coq(pkgs map[string]*pkgInfo) string {
 			fmt.Fprintf(&b, "(* %s: not found in the source *)\nDefinition %s_UNSUPPORTED : unit := tt.\n\n", name, coqName)
 			continue
 		}
+		var extra []string
 		func() {
 			defer func() {
 				if r := recover(); r != nil {
@@ -2528,13 +2953,15 @@ func go2coq(pkgs map[string]*pkgInfo) string {
 						panic(r)
 					}
 					msg := strings.NewReplacer("(*", "( *", "*)", "* )", "\"", "'").Replace(u.msg)
+					for _, d := range extra {
+						b.WriteString(d + "\n")
+					}
 					fmt.Fprintf(&b, "(* %s: unsupported: %s *)\nDefinition %s_UNSUPPORTED : unit := tt.\n\n", name, msg, coqName)
 				}
 			}()
-			var extra []string
 			f := &ftrans{pi: pi, info: pi.pkg.TypesInfo, sigs: sigs, vars: map[types.Object]*gvar{},
 				hid: map[string]*gvar{}, used: map[string]bool{}, synth: map[*ast.Ident]ex{},
-				structs: map[types.Object]*structVar{}, extra: &extra, emitted: emitted}
+				structs: map[types.Object]*structVar{}, extra: &extra, emitted: emitted, section: &section, inMapRange: map[*gvar]bool{}, rangeKey: map[*gvar]types.Object{}}
 			txt := f.function(name, fd)
 			for _, d := range extra {
 				b.WriteString(d + "\n")
@@ -2542,6 +2969,9 @@ func go2coq(pkgs map[string]*pkgInfo) string {
 			pos := pi.pkg.Fset.Position(fd.Pos())
 			fmt.Fprintf(&b, "(* %s — %s *)\n%s\n", name, strings.TrimPrefix(pos.Filename[strings.LastIndex(pos.Filename, "/client/")+1:], "/"), txt)
 		}()
+	}
+	if section {
+		b.WriteString("End WithTracker.\n")
 	}
 	return b.String()
 }
